@@ -110,10 +110,37 @@ def prec_lattice(tier):
     out += edge_lattice()
     out += regress_lattice()
     out += multidef_lattice()
+    out += forward_lattice(out, tier)
     if tier == "quick":
         # fixed, seed-independent slice
         keep = [p for k, p in enumerate(out) if p["family"] != "F-prec" or k % 11 == 0]  # stride coprime with every factor
         return keep
+    return out
+
+
+# ------------------------------------------------------------------ forward references
+def forward_lattice(base, tier):
+    """The same programs with their top-level entries in reverse order: options are used (in conditions, as
+    set / select targets, as range bounds) before the file defines them.  Evaluation order (`ord`) is unchanged;
+    what follows the text - the order of the output, which of two competing `set` sources comes first - follows it."""
+    import copy
+
+    picks = []
+    for k, it in enumerate(base):
+        fam = it["family"]
+        if fam == "F-forward":
+            continue
+        stride = {"F-prec": 41 if tier == "quick" else 5, "F-nest": 5 if tier == "quick" else 1, "F-choice": 29 if tier == "quick" else 3}.get(fam, 2 if tier == "quick" else 1)
+        if k % stride == 0:
+            picks.append(it)
+    out = []
+    for it in picks:
+        prog = copy.deepcopy(it["prog"])
+        if len(prog) < 2:
+            continue
+        prog.reverse()
+        new = dict(it, prog=prog, family="F-forward", point=dict(it.get("point", {}), forward_of=it["family"]))
+        out.append(new)
     return out
 
 
